@@ -53,6 +53,10 @@ func NewMultiPrinterWriter(expression *ExpressionNode, format *Format) PrinterWr
 }
 
 func (sp *multiPrintWriter) GetWriter(node *CandidateNode) (*bufio.Writer, error) {
+	if node == nil {
+		// asked for the writer of content that belongs to no result (the text after a front matter block)
+		return nil, fmt.Errorf("cannot use a split expression (-s) together with front matter content")
+	}
 	name := ""
 
 	indexVariableNode := CandidateNode{Kind: ScalarNode, Tag: "!!int", Value: fmt.Sprintf("%v", sp.index)}
